@@ -141,7 +141,11 @@ def run(ck):
         # guard pass: ordered pairs (first letters: those that set something non-default, quick: one exec letter)
         names = list(L)
         # quick: first letters = every configuration with the short call, plus the long call under the configurations that raise errors / hit limits
-        firsts = [n for n in names if n.endswith(('/s', '/v')) or n.split('/')[0] in ('logmax', 'dsmax', 'errlog', 'all', 'garbage', 'inv_out', 'dup_out')] if ck.tier == 'quick' else names
+        # quick: first letters = every vfork letter, the short call under every configuration that sets or breaks something, and the long call
+        # under the configurations that raise errors / hit limits (thorough: every letter first)
+        setting = ('mf', 'fc_drop', 'out_file2', 'out_stdout', 'out_stderr', 'out_sock', 'out_devtty', 'out_filetpl', 'errlog', 'errlog_only', 'fac', 'lvl', 'ident', 'dsmax', 'logmax', 'maxmax', 'all',
+                   'inv_out', 'inv_fac', 'inv_ds', 'dup_out', 'dup_out2', 'dup_all', 'cont', 'garbage', 'dir', 'out_syslog', 'out_syslog_local3', 'out_syslog_emptyident', 'out_devlog', 'out_file', 'out_stdout_emptyarg', 'out_file_emptyarg')
+        firsts = [n for n in names if n.endswith('/v') or (n.endswith('/s') and n.split('/')[0] in setting) or n.split('/')[0] in ('logmax', 'dsmax', 'errlog', 'all', 'garbage', 'inv_out', 'dup_out')] if ck.tier == 'quick' else names
         pairs = [(a, b) for a in firsts for b in names]
         for pr, r in zip(pairs, pmap(lambda p: ex.run_history(list(p)), pairs)):
             total_trans += 1
